@@ -24,12 +24,14 @@ def gen_histories(ctx):
     rng = ctx.rng
     if ctx.tier == "quick":
         hs = [rand_history(rng, 10) for _ in range(170)]
+        gr = [grown_history(rng) for _ in range(40)]
         ex = list(exhaustive_histories(2, start_states=("oo---o",)))      # ./b.rs and ./B.rs both over the limit
         rng.shuffle(ex)
-        return hs + ex[:120], {"sampled_len<=10": len(hs), "exhaustive_len<=2_subsample": 120}
+        return hs + gr + ex[:120], {"sampled_len<=10": len(hs), "recorded_file_grew_then_fail_fast": len(gr), "exhaustive_len<=2_subsample": 120}
     ex = list(exhaustive_histories(3, start_states=("oo---o",)))
     hs = [rand_history(rng, 10) for _ in range(1500)]
-    return ex + hs, {"exhaustive_len<=3": len(ex), "sampled_len<=10": len(hs)}
+    gr = [grown_history(rng) for _ in range(300)]
+    return ex + hs + gr, {"exhaustive_len<=3": len(ex), "sampled_len<=10": len(hs), "recorded_file_grew_then_fail_fast": len(gr)}
 
 
 def run(ctx):
@@ -44,19 +46,20 @@ def run(ctx):
     ee = error_entry_phase(ctx, bins, model, ctx.tier == "quick")
     nu = nonutf8_phase(ctx, bins, model)
     bs = backslash_phase(ctx, bins, model)
+    cb = custom_baseline_phase(ctx, bins, model)
     xcheck_model(ctx, model, 40 if ctx.tier == "quick" else 300)
-    ctx.cov["evaluations"] = lib["cases"] + hp["steps"] + ee["traces"] + nu["steps"] + bs["steps"]
+    ctx.cov["evaluations"] = lib["cases"] + hp["steps"] + ee["traces"] + nu["steps"] + bs["steps"] + cb["steps"]
     ctx.cov["distinct_nontrivial"] = hp["nontrivial"]
     ctx.cov["traces_validated_against_impl"] = hp["steps"] + ee["traces"] + nu["steps"] + bs["steps"] - len(hp["mismatches"]) - len(ee["mismatches"]) - len(nu["mismatches"]) - len(bs["mismatches"])
     ctx.cov["rule"] = ("library level: seeded result lists (49 path spellings incl. backslashes, empty, non-ASCII, pairs differing in letter case only, two paths that are not valid UTF-8 with one lossy form and that lossy form as a key; all categories and statuses) x baselines through "
                        "apply / update (4 modes, with and without an existing baseline) / ratchet / tighten / exit, implementation vs extracted model and vs one-line specs; "
                        "CLI level: histories of edits, --update-baseline <mode> (with/without --baseline, with/without fail-fast by flag or config) and checks (flags, [baseline] ratchet, [check] fail_fast, --files) over 6 files "
                        "(./b.rs and ./B.rs differ in letter case only) / 3 directories with sizes under/warn/over, with the tool's own state files (.sloc-guard/, the default baseline file, a temporary file of a killed save) lying in the root,  observables statuses + exit + baseline file vs check_step; --files lists with an unreadable entry (I/O error) before "
-                       "recorded / unrecorded violations in every order under fail-fast; non-UTF-8 file names sharing a lossy form (update, check, legacy file with the lossy key); a file name containing a backslash (known finding). "
+                       "recorded / unrecorded violations in every order under fail-fast; non-UTF-8 file names sharing a lossy form (update, check, legacy file with the lossy key); a file name containing a backslash (known finding); a custom-named baseline file written into a root directory at its max_files limit (known finding) next to the default name and a file outside the tree (must round-trip). "
                        "non-trivial = histories with at least one update, one edit and a non-empty baseline on disk at some step")
     ctx.cov["input_distribution"] = {"library": lib["dist"], "histories": dict(dist, corpus=len(corpus)), "cli_steps": hp["steps"], "cli_spawns": hp["spawns"],
-                                     "fail_fast_steps": hp["ff_traces"], "library_nontrivial": lib["nontrivial"],
-                                     "fail_fast_traces_with_unreadable_entry": ee["traces"], "steps_with_non_utf8_paths": nu["steps"], "steps_backslash_name": bs["steps"]}
+                                     "fail_fast_steps": hp["ff_traces"], "files_left_by_killed_updates": hp["killed_update_residues"], "library_nontrivial": lib["nontrivial"],
+                                     "fail_fast_traces_with_unreadable_entry": ee["traces"], "steps_with_non_utf8_paths": nu["steps"], "steps_backslash_name": bs["steps"], "steps_custom_baseline_file(in the tree / default name / outside)": cb["steps"]}
     ctx.cov["model_vs_impl_mismatches"] = len(lib["mismatches"]) + len(hp["mismatches"]) + len(ee["mismatches"]) + len(nu["mismatches"]) + len(bs["mismatches"])
     for s in lib["sample"][:1] + hp["sample"][:2]:
         ctx.sample(s)
@@ -64,14 +67,16 @@ def run(ctx):
                                                 "serde_json round trip of the baseline file; SHA-256 of file contents enters the model as data"]
     ctx.assumptions = ["the pre-baseline result list is produced by the scan/threshold/structure stages (C05-C07); C09 starts from it",
                        "a baseline file holds Unicode strings (JSON): no key contains a unit that stands for a raw byte; a path that is not valid UTF-8 has no key (fix D55)",
-                       "baseline keys are relative to the working directory of the run; one baseline file is used from one working directory"]
+                       "baseline keys are relative to the working directory of the run; one baseline file is used from one working directory",
+                       "the baseline file is not an entry the scan counts: it has the default name, lies outside the scanned tree or is excluded by [scanner] exclude "
+                       "(a custom-named file inside the tree is counted: known finding K09_custom_baseline_in_tree, D86)"]
     # ---- verdicts
     fails = [f for f in lib["oracle_failures"] if f["prop"] == "C09"]
     for f in fails[:3]:
         ctx.violation({"kind": "property-oracle", "what": f["what"], "first_mismatch": {"case": f["case"]}})
-    n = report_findings(ctx, "C09", hp["findings"] + ee["findings"] + nu["findings"] + bs["findings"])
+    n = report_findings(ctx, "C09", hp["findings"] + ee["findings"] + nu["findings"] + bs["findings"] + cb["findings"])
     if not fails and not n:
-        tie = lib["mismatches"] + hp["mismatches"] + hp["structural"] + ee["mismatches"] + nu["mismatches"] + bs["mismatches"]
+        tie = lib["mismatches"] + hp["mismatches"] + hp["structural"] + ee["mismatches"] + nu["mismatches"] + bs["mismatches"] + cb["mismatches"]
         report_tie(ctx, "C09", "sgv-check / sloc-guard check == extracted Check.Baseline (apply, update, check_step)", tie, proofs_ok, lib["errs"])
 
 
